@@ -7,6 +7,7 @@ Import ListNotations.
 From Coq Require Import Ring.
 From Yaqs Require Import LinAlg.TT.
 From Yaqs Require Import Model.DigitalLoop Proofs.DigitalLoopP Model.Params Proofs.ParamsP.
+From Yaqs Require Import Model.Window Proofs.WindowP.
 
 Theorem C02_schedule_is_permutation : forall sampling fuel c ex ev, NoDup (map id c) ->
   run sampling fuel c = Some (ex, ev) -> Permutation ex (filter gate c).
@@ -53,3 +54,11 @@ Theorem C02_local_operator_acts_exactly : forall (K : Type) (k0 k1 : K) (kadd km
   bsum K k0 kadd (d K s) (fun q => kmul (u p q) (amp K k0 k1 kadd kmul (pre ++ s :: post) (spre ++ q :: spost))).
 Proof. exact local_operator_acts_on_amplitudes. Qed.
 Print Assumptions C02_local_operator_acts_exactly.
+
+(* the window cut out for a two-qubit gate: inside the chain, contains the gate, at least two sites, distances kept *)
+Theorem C02_window_contains_gate : forall first last size L, first < last -> last < L ->
+  let w := window first last size L in
+  fst w <= first /\ last <= snd w /\ snd w < L /\ 2 <= window_len w /\
+  in_window w last - in_window w first = last - first /\ in_window w last < window_len w.
+Proof. exact window_sound. Qed.
+Print Assumptions C02_window_contains_gate.
